@@ -115,7 +115,7 @@ theorem live_step {s : St} {v : Nat} (hl : s.st v = .live) (e : Ev) (hne : e ≠
     | free w => simp only [Ev.var?, Option.some.injEq] at hv; subst hv; right; simp [St.apply, hil]
     | setnull w => simp only [Ev.var?, Option.some.injEq] at hv; subst hv; right; simp [St.apply, hil]
     | setunk w => simp only [Ev.var?, Option.some.injEq] at hv; subst hv; right; simp [St.apply, hil]
-    | use w | call w | wr w | zero w | code w => simp [Ev.var?] at hv
+    | use w | call w | wr w | zero w | code w | resizeKeep w => simp [Ev.var?] at hv
     | vfy => simp [Ev.var?] at hv
   · left; rw [st_apply_of_ne s e v hv]; exact hl
 
@@ -208,7 +208,7 @@ theorem null_step {s : St} {v : Nat} (hn : s.st v = .null) (e : Ev) (hne : ¬ Is
     | free w =>
       simp only [Ev.var?, Option.some.injEq] at hv; subst hv
       simp only [St.apply, St.isLive, hn]; exact hn
-    | use w | call w | wr w | zero w | code w => simp [Ev.var?] at hv
+    | use w | call w | wr w | zero w | code w | resizeKeep w => simp [Ev.var?] at hv
     | vfy => simp [Ev.var?] at hv
   · rw [st_apply_of_ne s e v hv]; exact hn
 
@@ -262,22 +262,24 @@ theorem noNullUse_of_fold (tr : List Ev) : ∀ s : St,
         obtain ⟨k, h1, h2, e', he', hr⟩ := ih (s.apply e0) hc i j v e (by simpa using hi) hnul (by omega) (by simpa using hj)
         exact ⟨k + 1, by omega, by omega, e', by simpa using he', hr⟩
 
-theorem failed_of_mem (tr : List Ev) : ∀ (s : St) (v : Nat),
-    (Ev.allocFail v ∈ tr ∨ Ev.resizeFail v ∈ tr) → (tr.foldl St.apply s).failed = true := by
+/-- the events by which an allocation fails -/
+def IsAllocFailure (e : Ev) : Prop := ∃ v, e = .allocFail v ∨ e = .resizeFail v ∨ e = .resizeKeep v
+
+theorem failed_of_mem (tr : List Ev) : ∀ (s : St),
+    (∃ e ∈ tr, IsAllocFailure e) → (tr.foldl St.apply s).failed = true := by
   induction tr with
-  | nil => intro s v h; simp at h
+  | nil => intro s h; simp at h
   | cons e t ih =>
-    intro s v h
-    simp only [List.mem_cons] at h
-    by_cases he : e = .allocFail v ∨ e = .resizeFail v
-    · have : (s.apply e).failed = true := by rcases he with rfl | rfl <;> simp [St.apply]
+    intro s h
+    by_cases he : IsAllocFailure e
+    · have : (s.apply e).failed = true := by
+        obtain ⟨v, rfl | rfl | rfl⟩ := he <;> simp [St.apply]
       exact failed_fold t _ this
-    · apply ih (s.apply e) v
-      rcases h with (h | h) | (h | h)
-      · exact absurd (Or.inl h.symm) he
-      · exact Or.inl h
-      · exact absurd (Or.inr h.symm) he
-      · exact Or.inr h
+    · apply ih (s.apply e)
+      obtain ⟨e', hm, hf⟩ := h
+      rcases List.mem_cons.mp hm with rfl | hm
+      · exact absurd hf he
+      · exact ⟨e', hm, hf⟩
 
 /-! #### C09: outputs on error paths -/
 
